@@ -11,7 +11,8 @@ Template syntax (units/*.vrs) -- plain Verus text plus directive lines:
   //@ file <repo-relative path>
   //@ item <seg> :: <seg>          e.g.  impl Wal :: fn replay     |   fn matches_phrase :: fn search
   //@ raw                          copy the item verbatim (struct/enum/const), only `rewrite`s apply
-  //@ slice /re-first/ .. /re-last/   statement slice (lines matched inside the fn body, each exactly once)
+  //@ slice /re-first/ .. /re-last/   statement slice (lines matched inside the fn body, each exactly once; `$` = end of body)
+  //@ slice-after /re/ .. /re-last/   as slice, but starting after the statement that begins on the anchored line
   //@ arm /re/                     the match arm whose pattern line matches (arm body must be a block)
   //@ header <signature text>      replaces the repository signature (required for slice/arm)
   //@ ret <name>                   whole fn: name the return value  `-> T`  =>  `-> (name: T)`
@@ -108,6 +109,7 @@ class Block:
         self.contract_only = False
         self.attrs = []
         self.early_return = False
+        self.slice_after = False
         self.imported_from = None
 
 
@@ -182,11 +184,12 @@ def parse_template(path):
                 cur.item = arg
             elif key == 'raw':
                 cur.raw = True
-            elif key == 'slice':
+            elif key in ('slice', 'slice-after'):
                 mm = re.fullmatch(r'/(.*)/ \.\. /(.*)/', arg)
                 if not mm:
                     raise ExtractError('template %s:%d bad slice' % (path, ln))
                 cur.slice = (mm.group(1), mm.group(2))
+                cur.slice_after = (key == 'slice-after')
             elif key == 'arm':
                 mm = re.fullmatch(r'/(.*)/', arg)
                 cur.arm = mm.group(1)
@@ -377,6 +380,10 @@ def expand_block(blk, gen, unit_id):
     if blk.slice:
         kind = 'statement-slice'
         a = rf.unique_line(blk.slice[0], body_lo, body_hi, 'slice start')
+        if blk.slice_after:
+            # the slice begins on the line after the END of the statement that starts on the anchored line
+            e0 = rf.stmt_end(a, body_hi)
+            a = rf.text.find('\n', e0) + 1
         if blk.slice[1] == '$':
             # up to the end of the function body (includes a trailing result expression)
             nl = line_start(rf.text, body_hi) - 1
